@@ -68,15 +68,6 @@ Section Cache.
     {| cache := remove (cache st) k; calls := calls st; log := log st |}.
 End Cache.
 
-(** tuple comparison  a > b  (lexicographic) *)
-Fixpoint lex_gt (a b : list nat) : bool :=
-  match a, b with
-  | x :: a', y :: b' => if Nat.ltb y x then true else if Nat.ltb x y then false else lex_gt a' b'
-  | _ :: _, [] => true
-  | _, _ => false
-  end.
-
-
 Fixpoint find_body (s : string) (p : tprogram) : option (list tstmt) :=
   match p with
   | [] => None
